@@ -59,7 +59,7 @@ static void run_script(const std::vector<std::string> &lines) {
             if (on("C17") && is_swap) oracle_C17(a, b, op[4], std::stoi(echo[1]), std::stoi(echo[2]), out);
             if (on("C11") && (op == "AddE" || op == "AddF" || op == "AddC")) oracle_C11(a, b, echo, r.has, r.r, out);
             if (on("C08")) oracle_C08(w, b, echo, r.has, r.r, out);
-            if (use_twin && twin_ok) {
+            if (use_twin && twin_ok && history_in_contract()) {   // (a history that left the contract is not judged: with a halfface in two cells the cache-guided and the scanning code legitimately differ)
                 if (op == "EnVBU" || op == "EnEBU" || op == "EnFBU") { /* not replayed on the twin */ }
                 else {
                     auto t2 = split_ws(r.echo); t2[0] = "@" + t2[0];
@@ -97,7 +97,7 @@ static void run_script(const std::vector<std::string> &lines) {
                     }
                 }
             }
-            note_history(b, op);             // after the oracles of this step
+            if (note_history(b, op)) o << "!T history left the contract (a caller-defined operation produced a state outside the properties' quantifier)\n";   // after the oracles of this step
         }
         std::string s = o.str();
         fwrite(s.data(), 1, s.size(), stdout);
